@@ -497,6 +497,9 @@ func TestB2C09Passwords(t *testing.T) {
 				w.Put(secret, Dict{"S": String("the secret string"), "A": Array{String("another one")}})
 				sref := w.Alloc()
 				sw, _ := w.OpenStream(sref, Dict{"Note": String("in the stream dict")}, FilterCompress{})
+				// an object put while the stream is open (written after it)
+				during := w.Alloc()
+				w.Put(during, Array{String("put while the stream is open")})
 				sw.Write(bytes.Repeat([]byte("secret stream data "), 80))
 				sw.Close()
 				if err := w.Close(); err != nil {
@@ -512,6 +515,9 @@ func TestB2C09Passwords(t *testing.T) {
 					obj, err := r.Get(secret, true)
 					if err != nil || !Equal(obj, Dict{"S": String("the secret string"), "A": Array{String("another one")}}) {
 						return fmt.Errorf("strings: %v %v", obj, err)
+					}
+					if obj, err := r.Get(during, true); err != nil || !Equal(obj, Array{String("put while the stream is open")}) {
+						return fmt.Errorf("object put during the stream: %v %v", obj, err)
 					}
 					so, err := r.Get(sref, true)
 					stm, ok := so.(*Stream)
